@@ -391,10 +391,18 @@ void ezc3d::c3d::point(const std::vector<ezc3d::DataNS::Frame>& frames)
         for (size_t i=0; i<labels.size(); ++i)
             if (!name.compare(labels[i]))
                 throw std::invalid_argument("The point you try to create already exists in the data set");
+        for (size_t i=0; i<idx; ++i)
+            if (!name.compare(frames[0].points().point(i).name()))
+                throw std::invalid_argument("The point you try to create already exists in the data set");
+    }
+    for (size_t f=0; f<data().nbFrames(); ++f)
+        if (frames[f].points().nbPoints() != frames[0].points().nbPoints())
+            throw std::invalid_argument("All the frames must have the same number of points");
 
+    // Everything was validated, now the points can be added
+    for (size_t idx = 0; idx < frames[0].points().nbPoints(); ++idx)
         for (size_t f=0; f<data().nbFrames(); ++f)
             _data->frame_nonConst(f).points_nonConst().point(frames[f].points().point(idx));
-    }
     updateParameters();
 }
 
@@ -435,7 +443,21 @@ void ezc3d::c3d::analog(const std::vector<ezc3d::DataNS::Frame> &frames)
         for (size_t i=0; i<labels.size(); ++i)
             if (!name.compare(labels[i]))
                 throw std::invalid_argument("The channel you try to create already exists in the data set");
+        for (size_t i=0; i<idx; ++i)
+            if (!name.compare(frames[0].analogs().subframe(0).channel(i).name()))
+                throw std::invalid_argument("The channel you try to create already exists in the data set");
+    }
+    for (size_t f=0; f < data().nbFrames(); ++f){
+        if (frames[f].analogs().nbSubframes() != header().nbAnalogByFrame())
+            throw std::invalid_argument("Size of the subframes in the frames must equal the number of subframes "
+                                        "already present in the data set");
+        for (size_t sf=0; sf < header().nbAnalogByFrame(); ++sf)
+            if (frames[f].analogs().subframe(sf).nbChannels() != frames[0].analogs().subframe(0).nbChannels())
+                throw std::invalid_argument("All the subframes must have the same number of channels");
+    }
 
+    // Everything was validated, now the channels can be added
+    for (size_t idx = 0; idx < frames[0].analogs().subframe(0).nbChannels(); ++idx){
         for (size_t f=0; f < data().nbFrames(); ++f){
             for (size_t sf=0; sf < header().nbAnalogByFrame(); ++sf){
                 _data->frame_nonConst(f).analogs_nonConst().subframe_nonConst(sf).channel(frames[f].analogs().subframe(sf).channel(idx));
